@@ -19,6 +19,7 @@ package main
 //          | ( xparse-error ) ; a panic is caught by main.go: ( err panic ... )
 //   c18 run x<json>       both at once (one parse, one calculation): ( verdict ... ) ( x<state> ( view ) )
 //                         with the panic caught here: ( xpanic x<message> x<top repo frame> )
+//   c18 match x<pattern> x<value>    regexp.Compile / MatchString as Extensions.Validate uses them: compiles(1/0) matches(1/0)
 //   c18 tables            codes the linked library knows that are not in Gen/*.v:
 //                         ( ( x<country code> iso tax ) ... ) ( x<currency code> ... )
 
@@ -26,6 +27,7 @@ import (
 	"encoding/json"
 	"fmt"
 	"reflect"
+	"regexp"
 	"runtime/debug"
 	"sort"
 	"strconv"
@@ -310,6 +312,12 @@ func init() {
 			return []V{verdict}
 		case "run":
 			return c18Run(a[1].S)
+		case "match":
+			re, err := regexp.Compile(a[1].Str())
+			if err != nil {
+				return []V{VB(false), VB(false)}
+			}
+			return []V{VB(true), VB(re.MatchString(a[2].Str()))}
 		case "tables":
 			var cs []V
 			for _, d := range l10n.Countries() {
